@@ -39,9 +39,12 @@ class SpecBuilder:
         self.spec["bufs"].append({"name": n, "shape": list(shape), "kind": kind})
         return n
 
-    def mod(self, type_: str, *args: Any, **kwargs: Any) -> str:
+    def mod(self, type_: str, *args: Any, tie_to: Optional[str] = None, **kwargs: Any) -> str:
         n = self._name("m_")
-        self.spec["mods"].append({"name": n, "type": type_, "args": list(args), "kwargs": kwargs})
+        d: Dict[str, Any] = {"name": n, "type": type_, "args": list(args), "kwargs": kwargs}
+        if tie_to:
+            d["tie_to"] = tie_to
+        self.spec["mods"].append(d)
         return n
 
     def op(self, op: str, args: List[str], shape: Optional[List[int]] = None, kind: str = "float",
